@@ -179,6 +179,8 @@ def parse_kind(s):
             "func": FUNC, "any": ANY, "complex": COMPLEX}
     if s in base:
         return base[s]
+    if s.startswith("obj[") and s.endswith("]"):
+        return KRef(s[4:-1])        # reference to a class whose name is not capitalised (priority_dict)
     if "[" in s:
         head, rest = s.split("[", 1)
         assert rest.endswith("]"), s
